@@ -42,6 +42,7 @@ type Enc struct {
 	globSlices []string
 	symAt      map[string]int // symbol -> number of lines when it was introduced
 	hints      bool           // emit array-store instantiation hints (contract clause "hints")
+	strFacts   map[string]bool // string-predicate facts already assumed (function|constant)
 	opaqueMul  bool           // contract clause "opaquemul": a*b of two non-constant program integers is the uninterpreted umul(a, b)
 	P          *Program
 	decls      []string
